@@ -30,8 +30,9 @@ PROPS = {
         'assumptions': COMMON_ASSUME + ['heights passed to onNewConsensusRound only take effect when increasing (SetHeightAndResetView, proved in C13)', 'reading of the statement: "before it" = before the node starts H (DESIGN.md C17)'],
     },
     'C15': {
-        'engines': [{'name': 'registry'}, RUNTIME],
-        'trusted_base': ['theorems in coq/props/C15.v about coq/theories/Contexts.v (proofs in ContextsFacts.v) and Loops.v (proofs in LoopsFacts.v)'],
+        'engines': [{'name': 'registry'}, {'name': 'world', 'quick_args': ['-n', '60'], 'thorough_args': ['-n', '1200']}, RUNTIME],
+        'corr_modules': ['Term'],
+        'trusted_base': ['theorems in coq/props/C15.v about coq/theories/Contexts.v (proofs in ContextsFacts.v), Loops.v (proofs in LoopsFacts.v) and Term.v (ctx_ok guards; proofs in TermFacts.v)'],
         'assumptions': COMMON_ASSUME + ['context.WithCancel semantics of the Go standard library (a child is done iff it or its parent was cancelled)',
                                         'Loops.v abstracts the protocol to its effect on (height, view), timer and SPI calls; it is tied to the code by the runtime engine (trace acceptor Runtime.v + monitors), the registry by the registry engine'],
         'notes': ['part (a) registry laws: proved for all op sequences; part (b) loop discipline: proved for all interleavings of the two-goroutine model; "results under a cancelled context are not broadcast" is checked on the implementation by the runtime and world engines (ctx_ok guards in Term.v)'],
